@@ -89,7 +89,8 @@ class CUSUM(BaseChangeScore):
         self :
             Reference to self.
         """
-        X = as_2d_array(X)
+        # Sums (of squares) of integer-typed data would overflow in the integer dtype.
+        X = as_2d_array(X, dtype=np.float64)
         self.sums_ = col_cumsum(X, init_zero=True)
         return self
 
